@@ -96,3 +96,11 @@ Print Assumptions C13_session_new_given.
 Print Assumptions C13_refresh_noop.
 Print Assumptions C13_refresh_discovery.
 Print Assumptions C13_refresh_timesync.
+
+(* the deferred user's keys are refused by the socket after the engine id was learned: the session stays to be refreshed *)
+Theorem C13_refresh_refused_keys :
+  forall (ps : pysession) (io1 io2 : probe_io) (seed : Z) (u : user) (s : v3sock) (d : bytes) (e : err), ps_to_refresh ps = true -> ps_deferred ps = Some u -> sock_refresh (ps_sock ps) io1 = StepOk s d -> v3_set_keys_st s (usr_name u) (user_auth_alg u) (user_auth_key u) (user_priv_alg u) (user_priv_key u) seed = (with_user s (usr_name u), Err e) -> py_refresh ps io1 io2 seed = {| rr_session := {| ps_sock := with_user s (usr_name u); ps_to_refresh := true; ps_deferred := Some u |}; rr_sent := [d]; rr_raised := Some (err_to_exc e); rr_crashed := false |} /\ auth (with_user s (usr_name u)) = auth s /\ privk (with_user s (usr_name u)) = privk s /\ engine_id (with_user s (usr_name u)) = engine_id s.
+Proof. exact refresh_discovery_refused_keys. Qed.
+Check C13_refresh_refused_keys :
+  forall (ps : pysession) (io1 io2 : probe_io) (seed : Z) (u : user) (s : v3sock) (d : bytes) (e : err), ps_to_refresh ps = true -> ps_deferred ps = Some u -> sock_refresh (ps_sock ps) io1 = StepOk s d -> v3_set_keys_st s (usr_name u) (user_auth_alg u) (user_auth_key u) (user_priv_alg u) (user_priv_key u) seed = (with_user s (usr_name u), Err e) -> py_refresh ps io1 io2 seed = {| rr_session := {| ps_sock := with_user s (usr_name u); ps_to_refresh := true; ps_deferred := Some u |}; rr_sent := [d]; rr_raised := Some (err_to_exc e); rr_crashed := false |} /\ auth (with_user s (usr_name u)) = auth s /\ privk (with_user s (usr_name u)) = privk s /\ engine_id (with_user s (usr_name u)) = engine_id s.
+Print Assumptions C13_refresh_refused_keys.
